@@ -1,5 +1,6 @@
 __doc__ = "Shared classes and types for basictdf."
 
+import math
 import struct
 from datetime import datetime
 from typing import IO, BinaryIO, Generic, Optional, TypeVar, Union
@@ -26,7 +27,9 @@ class BTSDate:
     @staticmethod
     def write(data) -> bytes:
         "Write a BTSDate to bytes"
-        return struct.pack("<i", int(data.timestamp()))
+        # whole seconds: the second the instant lies in (int() would round dates
+        # before 1970 that have a fraction of a second up to the next second)
+        return struct.pack("<i", math.floor(data.timestamp()))
 
     @staticmethod
     def bwrite(file, data) -> None:
